@@ -31,12 +31,23 @@ class VLoop(asyncio.SelectorEventLoop):
         self.step = 0
         self.hooks: list[Callable[[int], None]] = []
         self.idle = False
+        self.livelock = False
+        self._same_t, self._last_t = 0, -1.0
 
     def time(self):
         return self._vt
 
     def _run_once(self):
         self.step += 1
+        # watchdog: virtual time that never advances although the loop keeps running (e.g. a retry storm
+        # without delay) would never reach the end of the session
+        if self._vt == self._last_t:
+            self._same_t += 1
+            if self._same_t > 2000 and not self._stopping:
+                self.livelock = True
+                self.stop()
+        else:
+            self._last_t, self._same_t = self._vt, 0
         for h in list(self.hooks):
             h(self.step)
         while self._scheduled and self._scheduled[0]._cancelled:
@@ -266,7 +277,8 @@ class Session:
 
         async def status(state):
             self.ev("Status", s=state.name)
-            if status_cb == "slow":
+            if status_cb == "slow" or (status_cb == "slowC" and state.name == "CONNECTED") \
+                    or (status_cb == "slowD" and state.name == "DISCONNECTED"):
                 await asyncio.sleep(0.3)
             elif status_cb == "raise":
                 self.ev("StatusDone", r="raised")
@@ -325,7 +337,7 @@ class Session:
             pending = [t for t in asyncio.all_tasks(loop) if not t.done() and not t.get_name().startswith("harness-")]
             self.tasks_at_end = len(pending)
             self.ev("End", tasks=len(pending), names=sorted(_task_label(t) for t in pending)[:6], spin=bool(spin),
-                    idle=loop.idle)
+                    idle=loop.idle, livelock=loop.livelock)
             for t in asyncio.all_tasks(loop):
                 t.cancel()
             try:
